@@ -133,7 +133,7 @@ pub fn gen_plan(seed: u64) -> Plan {
     let fault_free = r.chance(1, 6);
     let mut acts = vec![XAct::Observe { out: r.below(6) }, XAct::Stabilise];
     while acts.len() < n_actions {
-        let a = match r.weighted(&[10, 5, 6, 12, 8, 5, 14, if fault_free { 0 } else { 3 }, if fault_free { 0 } else { 1 }, if fault_free { 0 } else { 2 }]) {
+        let a = match r.weighted(&[10, 5, 6, 12, 8, 5, 14, if fault_free { 0 } else { 3 }, if fault_free { 0 } else { 1 }, if fault_free { 0 } else { 2 }, if fault_free { 0 } else { 2 }]) {
             0 => XAct::SetSel { k: r.below(16) },
             1 => XAct::SetOuter { j: r.below(16) },
             2 => XAct::SetBsel { x: r.range(-3, 8) },
@@ -143,7 +143,8 @@ pub fn gen_plan(seed: u64) -> Plan {
             6 => XAct::Stabilise,
             7 => XAct::Poke,
             8 => XAct::Invalidate,
-            _ => XAct::HookArm { i: r.below(3), v: r.range(-3, 8) },
+            9 => XAct::HookArm { i: r.below(3), v: r.range(-3, 8) },
+            _ => XAct::TopAdd,
         };
         // biased combination: invalidate the bind-built child and re-select in the same round
         if matches!(a, XAct::SetBsel { .. }) && r.chance(1, 2) {
@@ -450,6 +451,7 @@ pub fn run_on_this_thread(plan: &Plan, keep_trace: bool) -> RunOutput {
             poke_out,
         ];
         let mut observers: Vec<Option<(usize, Observer<i64>, bool)>> = vec![];
+        let mut top_adds = 0u32;
 
         for a in plan.actions.iter() {
             let Action::X(a) = a else { continue };
@@ -474,6 +476,14 @@ pub fn run_on_this_thread(plan: &Plan, keep_trace: bool) -> RunOutput {
                     vars[*i % 3].set(norm(*v));
                 }
                 XAct::HookArm { i, v } => sh.hook_armed.set(Some((*i % 3, norm(*v)))),
+                XAct::TopAdd => {
+                    if top_adds < 3 && !refm.killed {
+                        top_adds += 1;
+                        let extra = state.constant(100 + top_adds as i64);
+                        let _dep = sum.add_dependency(&extra);
+                        sh.ev("top-level add_dependency on a fresh constant".into());
+                    }
+                }
                 XAct::Poke => {
                     sh.pending_poke.set(true);
                     poke.update(|x| x + 1);
@@ -514,6 +524,11 @@ pub fn run_on_this_thread(plan: &Plan, keep_trace: bool) -> RunOutput {
                     let n = sh.sum_recomputes_this_round.get();
                     if n > 1 {
                         sh.bad("double-recompute", format!("the dynamic sum was recomputed {} times in one stabilise", n));
+                    }
+                    // C05: nothing needed the sum when stabilise was called, and nothing does now
+                    let needed_after = observers.iter().flatten().any(|(o, _, _)| matches!(o, 0 | 3 | 4));
+                    if !sum_needed && !needed_after && n > 0 {
+                        sh.viol.borrow_mut().push(Violation { property: "C05", rule: "expert-node-ran-unneeded", at: sh.log.borrow().len(), detail: format!("the dynamic sum was recomputed {} time(s) in a stabilise although no live observer needs it", n) });
                     }
                     if owed && sum_needed && !refm.killed && n != 1 {
                         sh.bad("make-stale", format!("make_stale was called on the dynamic sum while no observer needed it; in the first stabilise that needs it again it was recomputed {} times", n));
